@@ -196,14 +196,14 @@ def sum_apps(exprs, seen=None):
     return out
 
 
-def sum_axioms(app):
+def sum_axioms(app, frame=True):
     """definition unfolding and frame instances for one ground application sum(a, lo, hi)"""
     f = app.decl()
     a, lo, hi = app.arg(0), app.arg(1), app.arg(2)
     zero = z3.RealVal(0) if f.range() == R else z3.IntVal(0)
     out = [z3.Implies(hi <= lo, app == zero),
            z3.Implies(hi > lo, app == f(a, lo, hi - 1) + z3.Select(a, hi - 1))]
-    if z3.is_app(a) and a.decl().kind() == z3.Z3_OP_STORE:
+    if frame and z3.is_app(a) and a.decl().kind() == z3.Z3_OP_STORE:
         base, k = a.arg(0), a.arg(1)
         # frame lemma (proved by induction on hi in contracts/lemmas.py: sum_frame)
         out.append(z3.Implies(z3.Or(k < lo, k >= hi), app == f(base, lo, hi)))
@@ -212,7 +212,7 @@ def sum_axioms(app):
     return out
 
 
-def instantiate(qf, univ, goal, rounds=2, extra_terms=(), budget=60000):
+def instantiate(qf, univ, goal, rounds=2, extra_terms=(), budget=60000, sum_frame=True):
     """returns the list of ground z3 hypotheses (qf + instances)"""
     ground = list(qf)
     done = set()
@@ -239,7 +239,7 @@ def instantiate(qf, univ, goal, rounds=2, extra_terms=(), budget=60000):
             if sid in sums_done:
                 continue
             sums_done.add(sid)
-            fresh_exprs += sum_axioms(app)
+            fresh_exprs += sum_axioms(app, sum_frame)
         if rnd == rounds:
             ground += fresh_exprs
             break
@@ -449,7 +449,7 @@ def run_cli(cmd, text, timeout_s):
             pass
 
 
-def discharge(ob, timeout_ms=10000, rounds=2):
+def discharge(ob, timeout_ms=10000, rounds=2, sum_frame=True):
     """-> dict(status=proved|refuted|undecided, backend, ms, model, why)"""
     t0 = time.time()
     try:
@@ -465,7 +465,7 @@ def discharge(ob, timeout_ms=10000, rounds=2):
         except NotImplementedError as e:
             return dict(status='undecided', why=str(e), ms=0, backend='-')
         goal = to_z3(g)
-        ground = instantiate(qf, univ, goal, rounds=rounds)
+        ground = instantiate(qf, univ, goal, rounds=rounds, sum_frame=sum_frame)
         assertions = ground + [z3.Not(goal)]
         r = _check(assertions, timeout_ms)
         r['nhyps'] = len(ground)
